@@ -11,8 +11,10 @@ def T(name, q, th, th_shards=16, pkg="internal", race=False, q_timeout=300, th_t
 
 PROPS = {
     "C02": dict(tests=[T("TestVerifC02Pipeline", 15000, 200000)]),
+    "C03": dict(tests=[T("TestVerifC03Seq", 4000, 60000)]),
     "C04": dict(tests=[T("TestVerifC04Wheel", 20000, 300000), T("TestVerifC04Pipeline", 8000, 100000)]),
     "C05": dict(tests=[T("TestVerifC05Pipeline", 15000, 200000), T("TestVerifC05Pool", 8000, 100000)]),
+    "C06": dict(tests=[T("TestVerifC06Seq", 4000, 60000)]),
     "C07": dict(tests=[T("TestVerifC07", 30000, 400000)]),
     "C17": dict(tests=[T("TestVerifC17", 20000, 150000)]),
 }
